@@ -205,6 +205,8 @@ def abstract_path(path):
             out.append('RenModel(%s)' % m)
         elif k == 'DeleteModel':
             out.append('DelModel(%s)' % model_id(mj[1]))
+        elif k == 'SQLRaw':
+            out.append('SQLRaw')
         else:
             out.append(k)
     return ' ; '.join(out)
